@@ -143,7 +143,7 @@ int EvalExpression::run(AsmContext *asm_context, Var &answer, bool is_paren)
         if (IS_TOKEN(token, '-'))
         {
           // Needed for: 6 + -5.
-          parse_unary_new(asm_context, var);
+          if (parse_unary_new(asm_context, var) != 0) { return -1; }
           var.negative();
           var_stack.push(var);
           count++;
@@ -152,7 +152,7 @@ int EvalExpression::run(AsmContext *asm_context, Var &answer, bool is_paren)
         if (IS_TOKEN(token, '~'))
         {
           // Needed for: ~0xfe.
-          parse_unary_new(asm_context, var);
+          if (parse_unary_new(asm_context, var) != 0) { return -1; }
           var.complement();
           var_stack.push(var);
           count++;
@@ -214,6 +214,13 @@ int EvalExpression::run(AsmContext *asm_context, Var &answer, bool is_paren)
   while (var_stack.size() > 1 && oper_stack.is_empty() == false)
   {
     if (execute_stack(var_stack, oper_stack) != 0) { return  -1; }
+  }
+
+  // An operator with no right hand operand (for example "5 +").
+  if (oper_stack.is_empty() == false)
+  {
+    print_error_unexp(asm_context, token);
+    return -1;
   }
 
   answer = var_stack.pop();
